@@ -45,3 +45,66 @@ pub fn case_from_json(v: &Value) -> (TlSpec, Option<P>, f32, P) {
     let init = P::from_json(&v["target_before"]);
     (spec, start, t, init)
 }
+
+// ------------------------------------------------------------------------------------------------
+// Shared enumeration driver for T(n) x default easings.
+
+use vlib::util::par_fold;
+
+pub const CHUNK: u64 = 512;
+
+/// Enumerates every keyframe list of size 0..=nmax (see `decode_t`) x default easing, in parallel.
+/// `f(acc, n, idx, default_easing, kfs, rank)`.
+pub fn for_each_kfs<A: Send>(
+    nmax: usize,
+    grid: &'static [f32],
+    default_easings: &[u8],
+    distinct_per_prop: bool,
+    init: impl Fn() -> A + Sync,
+    f: impl Fn(&mut A, usize, u64, u8, &Vec<Kf>, u64) + Sync,
+    merge: impl Fn(&mut A, A),
+) -> A {
+    let mut items: Vec<(usize, u8, u64)> = vec![];
+    for n in 0..=nmax {
+        let c = count_t(n, grid.len());
+        for &de in default_easings {
+            let mut s = 0;
+            while s < c {
+                items.push((n, de, s));
+                s += CHUNK;
+            }
+        }
+    }
+    par_fold(
+        items.len(),
+        init,
+        |i, acc| {
+            let (n, de, s0) = items[i];
+            let c = count_t(n, grid.len());
+            for idx in s0..(s0 + CHUNK).min(c) {
+                if let Some(kfs) = decode_t(n, grid, idx, 1, 2, distinct_per_prop) {
+                    let rank = (n as u64) << 44 | idx << 8;
+                    f(acc, n, idx, de, &kfs, rank);
+                }
+            }
+        },
+        merge,
+    )
+}
+
+/// Tight comparison used where the statement promises exactness: integers exactly, floats within
+/// `ulps` ulp32 of the reference value.
+pub fn compare_tight(name: &str, got: f64, want: f64, int: bool, ulps: f64) -> Result<(), String> {
+    if int {
+        if got == want {
+            return Ok(());
+        }
+        return Err(format!("{name}: got {got}, must be exactly {want}"));
+    }
+    let tol = ulps * (vlib::util::ulp32(want as f32) as f64);
+    if (got - want).abs() <= tol && got.is_finite() {
+        Ok(())
+    } else {
+        Err(format!("{name}: got {got}, must be within {ulps} ulp of {want}"))
+    }
+}
